@@ -1318,7 +1318,7 @@ class CPHDWriter1(BaseWriter):
     __slots__ = (
         '_file_name', '_file_object', '_in_memory', '_writing_details',
         '_pvp_memmaps', '_support_memmaps', '_signal_data_segments',
-        '_can_write_regular_data')
+        '_can_write_regular_data', '_close_after')
 
     def __init__(
             self,
@@ -1342,12 +1342,15 @@ class CPHDWriter1(BaseWriter):
         """
 
         self._writing_details = None
+        self._close_after = False
 
         if isinstance(file_object, str):
             if check_existence and os.path.exists(file_object):
                 raise SarpyIOError(
                     'Given file {} already exists, and a new CPHD file cannot be created here.'.format(file_object))
             file_object = open(file_object, 'wb')
+            # NB: we opened this, so we are responsible for closing it
+            self._close_after = True
 
         if not is_file_like(file_object):
             raise ValueError('file_object requires a file path or BinaryIO object')
@@ -1882,4 +1885,11 @@ class CPHDWriter1(BaseWriter):
         except AttributeError:
             pass
         self._writing_details = None
-        self._file_object.close()
+        # NB: a file object supplied by the caller is left open
+        if getattr(self, '_close_after', False):
+            self._file_object.close()
+        else:
+            try:
+                self._file_object.flush()
+            except (AttributeError, ValueError):
+                pass
